@@ -40,9 +40,21 @@ def log(*a):
     print(*a, file=sys.stderr, flush=True)
 
 
+# no single run of a driver or model may take longer than this (seconds); ./check raises it for the thorough tier.
+# A run that does not finish is a finding (the quick runs take seconds to a few minutes), not something to wait an hour for.
+TIME_CAP = 900
+
+
 def run(cmd, timeout=None, cwd=None, env=None, input=None, check=False):
-    p = subprocess.run(cmd, cwd=cwd, env=env, input=input, timeout=timeout,
-                       stdout=subprocess.PIPE, stderr=subprocess.PIPE, text=True)
+    timeout = min(timeout or TIME_CAP, TIME_CAP)
+    try:
+        p = subprocess.run(cmd, cwd=cwd, env=env, input=input, timeout=timeout,
+                           stdout=subprocess.PIPE, stderr=subprocess.PIPE, text=True)
+    except subprocess.TimeoutExpired as e:
+        # a run that does not finish is reported like a crash (exit status 124), with what it printed so far
+        def txt(b):
+            return b.decode("utf-8", "replace") if isinstance(b, (bytes, bytearray)) else (b or "")
+        p = subprocess.CompletedProcess(cmd, 124, txt(e.stdout), txt(e.stderr) + "\nTIMEOUT: no result after %s s (the process was killed)" % timeout)
     if check and p.returncode != 0:
         raise RuntimeError("command failed (%d): %s\n%s\n%s" %
                            (p.returncode, " ".join(cmd), p.stdout[-4000:], p.stderr[-4000:]))
@@ -470,7 +482,7 @@ def run_cases(exe, lines, args=(), env=None, timeout=7200, max_crashes=8):
         outs[bad] = None
         crashes.append((bad, "rc=%d " % p.returncode + p.stderr[-3000:]))
         start = bad + 1
-        if len(crashes) >= max_crashes:
+        if len(crashes) >= max_crashes or p.returncode == 124:      # after a hang, do not wait for further ones
             break
     return outs, crashes
 
